@@ -573,6 +573,17 @@ func (am *AccountingManager) pendingRecordProcessor() {
 
 // processPendingRecord attempts to send a pending record
 func (am *AccountingManager) processPendingRecord(record *PendingAcctRecord) {
+	// A record reaches this function through the queue channel and through the
+	// retry sweep. The other path may already have got it acknowledged (or
+	// abandoned) and removed from the queue: sending it again would repeat an
+	// Accounting-Stop the server has acknowledged.
+	am.pendingMu.RLock()
+	cur, pending := am.pendingRecords[record.ID]
+	am.pendingMu.RUnlock()
+	if !pending || cur != record {
+		return
+	}
+
 	ctx, cancel := context.WithTimeout(am.ctx, 5*time.Second)
 	defer cancel()
 
